@@ -917,6 +917,152 @@ for cls, f in (("Node", "nodes/node.py"), ("Edge", "edges/edge.py")):
          kind="sig:(k : dsrc) : nat")
 
 
+# ---------------------------------------------------------------- constructor wiring: which of its own parameters an edge / a
+# store hands to the store it builds (or to its base class) for each of that constructor's parameters
+SRCDIR = [None]
+PYARGS = {"capacity": "A_capacity", "mode": "A_mode", "delay": "A_delay", "transit_delay": "A_transit_delay", "speed": "A_speed",
+          "accumulating": "A_accumulating", "const 'FIFO'": "A_const_FIFO", "default": "A_default"}
+
+
+def pyarg(v):
+    """a constructor argument as a value of the generated type [pyarg]: one of the caller's own parameters by name, the literal
+    'FIFO', nothing passed, or anything else (another parameter, another literal, a computed expression)"""
+    return PYARGS.get(v, "A_other")
+
+SIMPY_STORE = ["env", "capacity"]                  # simpy.Store.__init__(self, env, capacity=inf): the external base of all stores
+
+
+def ctor_params(file, cls):
+    fn = find(ast.parse(open(os.path.join(SRCDIR[0], file)).read()), cls, "__init__")
+    if fn.args.vararg or fn.args.kwarg or fn.args.kwonlyargs or fn.args.posonlyargs:
+        raise Unsupported("%s.__init__ has a signature this reader does not know" % cls)
+    return [a.arg for a in fn.args.args][1:]
+
+
+def wiring(tree, cls, callee, cparams, param):
+    """What <cls>.__init__ hands over for parameter <param> of <callee> (a class it instantiates into an attribute, or
+    'super'): the NAME of one of its own parameters -- directly, or through `self.X = <parameter>` assigned before, at the top
+    level of __init__ --, 'const <literal>', 'default' (not passed), or 'expr <source>' for anything computed."""
+    fn = find(tree, cls, "__init__")
+    if fn.args.vararg or fn.args.kwarg or fn.args.kwonlyargs or fn.args.posonlyargs:
+        raise Unsupported("%s.__init__ has a signature this reader does not know" % cls)
+    own = [a.arg for a in fn.args.args][1:]
+    if isinstance(cparams, tuple):
+        cparams = ctor_params(*cparams)
+    fields, locs = {}, {}
+
+    def val(e):
+        if isinstance(e, ast.Name):
+            if e.id in locs:
+                return locs[e.id]
+            if e.id in own:
+                return e.id
+        if isinstance(e, ast.Attribute) and isinstance(e.value, ast.Name) and e.value.id == "self" and e.attr in fields:
+            return fields[e.attr]
+        if isinstance(e, ast.Constant):
+            return "const " + repr(e.value)
+        return "expr " + ast.unparse(e)
+
+    def assign(t, v):
+        if isinstance(t, ast.Attribute) and isinstance(t.value, ast.Name) and t.value.id == "self":
+            fields[t.attr] = v
+        elif isinstance(t, ast.Name):
+            locs[t.id] = v
+        elif isinstance(t, (ast.Tuple, ast.List)):
+            for x in t.elts:
+                assign(x, "expr <unpacked>")
+
+    found = None
+    for st in fn.body:
+        call = None
+        if callee == "super":
+            if isinstance(st, ast.Expr) and isinstance(st.value, ast.Call) and ast.unparse(st.value.func) == "super().__init__":
+                call = st.value
+        elif isinstance(st, ast.Assign) and isinstance(st.value, ast.Call) and ast.unparse(st.value.func) == callee:
+            call = st.value
+        if call is not None:
+            if found is not None:
+                raise Unsupported("%s.__init__ calls %s twice" % (cls, callee))
+            if any(isinstance(a, ast.Starred) for a in call.args) or any(k.arg is None for k in call.keywords):
+                raise Unsupported("%s.__init__ calls %s with * / **" % (cls, callee))
+            if len(call.args) > len(cparams):
+                raise Unsupported("%s.__init__ passes %d positional arguments to %s%s" % (cls, len(call.args), callee, cparams))
+            found = {}
+            for i, a in enumerate(call.args):
+                found[cparams[i]] = val(a)
+            for k in call.keywords:
+                if k.arg not in cparams or k.arg in found:
+                    raise Unsupported("%s.__init__ passes %s= to %s%s" % (cls, k.arg, callee, cparams))
+                found[k.arg] = val(k.value)
+            continue
+        if found is not None:
+            continue                                  # what happens after the call does not change what was handed over
+        if isinstance(st, ast.Assign):
+            v = val(st.value)
+            for t in st.targets:
+                assign(t, v)
+        elif isinstance(st, (ast.AugAssign, ast.AnnAssign)):
+            assign(st.target, "expr <updated>")
+        else:
+            for n in ast.walk(st):                    # assignments under a condition / in a loop: the name is no longer a parameter
+                if isinstance(n, ast.Assign):
+                    for t in n.targets:
+                        assign(t, "expr <conditional>")
+                elif isinstance(n, (ast.AugAssign, ast.AnnAssign)):
+                    assign(n.target, "expr <conditional>")
+    if found is None:
+        raise Unsupported("%s.__init__ does not call %s at its top level" % (cls, callee))
+    return pyarg(found.get(param, "default"))
+
+
+WIRING = [  # (fragment prefix, file, class, callee, callee's parameters or (file, class) to read them from, {parameter: expected})
+    ("Buffer_store", "edges/buffer.py", "Buffer", "BufferStore", ("base/buffer_store.py", "BufferStore"), {"capacity": "capacity", "mode": "mode"}),
+    ("BufferStore_base", "base/buffer_store.py", "BufferStore", "super", SIMPY_STORE, {"capacity": "capacity"}),
+    ("Fleet_store", "edges/fleet.py", "Fleet", "FleetStore", ("base/fleet_store.py", "FleetStore"),
+     {"capacity": "capacity", "delay": "delay", "transit_delay": "transit_delay"}),
+    ("FleetStore_base", "base/fleet_store.py", "FleetStore", "super", SIMPY_STORE, {"capacity": "capacity"}),
+    ("SlotConveyor_store", "edges/slotted_conveyor.py", "ConveyorBelt", "BeltStore", ("edges/slotted_conveyor.py", "BeltStore"),
+     {"capacity": "capacity", "delay": "delay"}),
+    ("SlotConveyorStore_base", "edges/slotted_conveyor.py", "BeltStore", "super", ("base/slotted_belt_store.py", "BeltStore"),
+     {"capacity": "capacity", "delay": "delay", "mode": "const 'FIFO'"}),
+    ("SlotBeltStore_base", "base/slotted_belt_store.py", "BeltStore", "super", SIMPY_STORE, {"capacity": "capacity"}),
+    ("ContConveyor_store", "edges/continuous_conveyor.py", "ConveyorBelt", "BeltStore", ("base/belt_store.py", "BeltStore"),
+     {"speed": "speed", "accumulation_mode_indicator": "accumulating"}),
+    ("ContBeltStore_base", "base/belt_store.py", "BeltStore", "super", SIMPY_STORE, {"capacity": "capacity"}),
+    ("ReservableReqStore_base", "base/reservable_req_store.py", "ReservableReqStore", "super", SIMPY_STORE, {"capacity": "capacity"}),
+    ("ReservablePriorityReqStore_base", "base/reservable_priority_req_store.py", "ReservablePriorityReqStore", "super", SIMPY_STORE,
+     {"capacity": "capacity"}),
+]
+for pre, f, cls, callee, cps, expect in WIRING:
+    for prm, exp in expect.items():
+        frag("%s_%s_wiring" % (pre, prm), f, lambda t, c=cls, ce=callee, cp=cps, pr=prm: wiring(t, c, ce, cp, pr),
+             pyarg(exp), kind="sig:: pyarg")
+
+
+def stores_field(tree, cls, field):
+    """the parameter <cls>.__init__ keeps in self.<field> (assigned once, at the top level, straight from the parameter)"""
+    fn = find(tree, cls, "__init__")
+    own = [a.arg for a in fn.args.args][1:]
+    hits = [n for n in ast.walk(fn) if isinstance(n, (ast.Assign, ast.AugAssign, ast.AnnAssign))
+            for t in (n.targets if isinstance(n, ast.Assign) else [n.target])
+            if isinstance(t, ast.Attribute) and isinstance(t.value, ast.Name) and t.value.id == "self" and t.attr == field]
+    if len(hits) != 1 or hits[0] not in fn.body or not isinstance(hits[0], ast.Assign):
+        raise Unsupported("%s.__init__ assigns self.%s %d times / not at its top level" % (cls, field, len(hits)))
+    v = hits[0].value
+    if isinstance(v, ast.Name) and v.id in own and not any(
+            isinstance(n, ast.Name) and isinstance(n.ctx, ast.Store) and n.id == v.id for n in ast.walk(fn)):
+        return pyarg(v.id)
+    return pyarg("expr")
+
+
+for pre, f, cls, field, exp in (("SlotBeltStore", "base/slotted_belt_store.py", "BeltStore", "delay", "delay"),
+                                ("ContBeltStore", "base/belt_store.py", "BeltStore", "speed", "speed"),
+                                ("FleetStore", "base/fleet_store.py", "FleetStore", "delay", "delay"),
+                                ("FleetStore", "base/fleet_store.py", "FleetStore", "transit_delay", "transit_delay"),
+                                ("BufferStore", "base/buffer_store.py", "BufferStore", "mode", "mode")):
+    frag("%s_keeps_%s" % (pre, field), f, lambda t, c=cls, fd=field: stores_field(t, c, fd), pyarg(exp), kind="sig:: pyarg")
+
+
 def belt_gate(tree):
     return GTr().grants(find(tree, "BeltStore", "_do_reserve_put").body)
 
@@ -927,6 +1073,7 @@ def main():
     ap.add_argument("--out", required=True)
     a = ap.parse_args()
     src = os.path.join(a.repo, "src", "factorysimpy")
+    SRCDIR[0] = src
     out = ["(* GENERATED by translator/py_to_gallina.py from %s -- do not edit, never committed *)" % src,
            "From Coq Require Import ZArith Bool List.", "Open Scope Z_scope.",
            "Record lens := { " + "; ".join("n_%s : Z" % f for f in FIELDS) + "; capacity : Z }.",
@@ -937,6 +1084,8 @@ def main():
            "Definition ev_is (a b : pyev) : bool := Nat.eqb (ev_id a) (ev_id b).",
            "Fixpoint pyremove (x : pyev) (l : list pyev) : list pyev := match l with nil => nil | cons y r => if ev_is y x then r else cons y (pyremove x r) end.",
            "Record pyedge := { ed_id : nat; ed_can_put : bool }.",
+           "(* a constructor argument: one of the caller's own parameters (by name), the literal 'FIFO', not passed, anything else *)",
+           "Inductive pyarg := A_capacity | A_mode | A_delay | A_transit_delay | A_speed | A_accumulating | A_const_FIFO | A_default | A_other.",
            "Inductive dsrc := DGen | DCall | DConst.   (* a delay parameter: generator instance, callable, constant *)",
            "Fixpoint pyindex (x : pyev) (l : list pyev) : nat := match l with nil => O | cons y r => if ev_is y x then O else S (pyindex x r) end.", ""]
     report = {}
